@@ -1,4 +1,4 @@
-CONSTANTS MaxEdits = 3
+CONSTANTS MaxEdits = 2
  Flaw_DirNames = TRUE
  Flaw_Paths = FALSE
  Flaw_NoOutput = FALSE
@@ -7,6 +7,6 @@ CONSTANTS MaxEdits = 3
  Menu = "all"
  EmitAll = FALSE
 SPECIFICATION Spec
-INVARIANTS EmitHist
+INVARIANTS C11a C11b C11c NoOp
 VIEW View
 CHECK_DEADLOCK FALSE
